@@ -20,7 +20,7 @@ func c02Grid(n int64) (skips []*int64, limits []struct {
 	none bool
 }) {
 	skips = []*int64{nil, i64p(0), i64p(1), i64p(n - 1), i64p(n), i64p(n + 1), i64p(-1), i64p(-5), i64p(1 << 62), i64p(math.MaxInt64)}
-	for _, l := range []*int64{nil, nil, i64p(0), i64p(1), i64p(n - 1), i64p(n), i64p(n + 1), i64p(-1), i64p(-7), i64p(math.MaxInt64)} {
+	for _, l := range []*int64{nil, nil, i64p(0), i64p(1), i64p(n - 1), i64p(n), i64p(n + 1), i64p(-1), i64p(-7), i64p(math.MaxInt64), i64p(math.MaxInt64 - 1)} { // the last one: a finite limit which skip + limit still overflows with
 		limits = append(limits, struct {
 			v    *int64
 			none bool
